@@ -81,12 +81,14 @@ def ck_term(c):
 
 
 class CRunner:
-    def __init__(self, kind, connect_disconnects=False, disc_raises=False):
+    def __init__(self, kind, connect_disconnects=False, disc_raises=False, disconnect_disconnects=False):
         self.kind = kind
         self.d = crt.CDRIVERS[kind](request_timeout=REQ_TIMEOUT)
         self.d.connect_action = 'disconnect' if connect_disconnects else None
         self.d.disconnect_raises = disc_raises
         self.connect_disconnects = connect_disconnects
+        self.disconnect_disconnects = disconnect_disconnects
+        self.d.disconnect_action = 'disconnect' if disconnect_disconnects else None
         self.ops, self.outs, self.log, self.views, self.times = [], [], [], [], []
         self.tpos = 0
         self.ncall = 0
@@ -94,7 +96,7 @@ class CRunner:
 
     def cfg_term(self):
         return '{| cc_request_timeout := %s; cc_connect_handler_disconnects := %s; cc_quirks := {| cq_handshake_recv_timeout := %s |} |}' % (  # both clients since fix D28
-            qZ(REQ_TIMEOUT), qbool(self.connect_disconnects), qbool(True))
+            qZ(REQ_TIMEOUT), qbool(self.connect_disconnects), qbool(True))    # a disconnect handler that disconnects changes nothing
 
     def pending(self, method):
         return sorted(h for h, p in self.d.pending.items() if p.method == method)
@@ -344,3 +346,105 @@ def run_history(kind, ops, **kw):
     finally:
         r.close()
     return r
+
+
+def gen_adaptive(rng, r, length=30):
+    """a history that follows the protocol most of the time: the next stimulus is chosen by looking at what the client is waiting for
+    (executed on runner `r` while it is generated; the returned list is replayed on the other client)"""
+    I, T = rng.choice([(32, 16), (16, 16), (8, 24), (40, 8)])
+    nmsg = [0]
+
+    def mid():
+        nmsg[0] += 1
+        return nmsg[0]
+
+    def pkts(n):
+        out = []
+        for _ in range(n):
+            x = rng.random()
+            if x < 0.55:
+                out.append(('msg', mid(), rng.choice(['none', 'none', 'none', 'send', 'raise', 'disc'] if rng.random() < 0.2 else ['none', 'none', 'send'])))
+            elif x < 0.8:
+                out.append(('ping', rng.randrange(4)))
+            elif x < 0.88:
+                out.append(('noop',))
+            elif x < 0.94:
+                out.append((rng.choice(['other', 'other2', 'other3']),))
+            elif x < 0.97:
+                out.append(('pongprobe',))
+            else:
+                out.append(('close',))
+        return out
+
+    def do(op):
+        n = len(r.log)
+        r.do(op)
+        return len(r.log) > n
+
+    do(('call', 'connect', rng.choice([['polling'], ['websocket'], ['polling', 'websocket'], ['polling', 'websocket'], ['websocket', 'polling']])))
+    for _ in range(length):
+        d = r.d
+        opens = [h for h, p in d.pending.items() if d.req_kind(p.method, p.url) == 'open']
+        polls = [h for h, p in d.pending.items() if d.req_kind(p.method, p.url) == 'poll']
+        posts = [h for h, p in d.pending.items() if p.method == 'POST']
+        state = r.views[-1][0] if r.views else 'disconnected'
+        x = rng.random()
+        if d.pending_ws and x < 0.7:
+            do(('wsanswer', rng.random() < 0.85))
+        elif opens and x < 0.75:
+            k = rng.random()
+            if k < 0.75:
+                do(('reply', 'GET', ('ok', [('open', True, rng.random() < 0.6, I, T)] + pkts(rng.choice([0, 0, 1, 3])))))
+            elif k < 0.87:
+                do(('reply', 'GET', ('ok', [('open', False, False, 16, 16 + rng.randrange(4))] + pkts(rng.choice([0, 1])))))
+            else:
+                do(('reply', 'GET', rng.choice([('status', 401), ('garbage', rng.randrange(3)), ('fail',), ('ok', [])])))
+        elif state == 'disconnected' and not opens and not d.pending_ws:
+            if x < 0.6:
+                do(('call', 'connect', rng.choice([['polling'], ['websocket'], ['polling', 'websocket']])))
+            elif x < 0.75:
+                do(('call', 'wait'))
+            elif x < 0.85:
+                do(('call', 'send', mid(), False))
+            elif x < 0.92:
+                do(('call', 'disconnect'))
+            else:
+                do(('adv', rng.choice([1, 8, 41])))
+        else:
+            # a connection is up (or being upgraded)
+            wsup = bool(d.wsconns) and r.views[-1][2] == 'websocket'
+            if x < 0.22:
+                for _ in range(rng.choice([1, 1, 1, 2, 5, 17, 20, 35])):
+                    do(('call', 'send', mid(), rng.random() < 0.25))
+            elif x < 0.40 and posts:
+                k = rng.random()
+                do(('reply', 'POST', ('ok', []) if k < 0.9 else ('status', 400) if k < 0.95 else ('fail',)))
+            elif x < 0.62 and (polls or wsup or d.wsconns):
+                if wsup or (d.wsconns and rng.random() < 0.6):
+                    k = rng.random()
+                    if k < 0.25 and not wsup:
+                        do(('wsframe', ('pk', ('pongprobe',))))
+                    elif k < 0.32 and not wsup:
+                        do(('wsframe', ('pk', ('open', rng.random() < 0.9, False, I, T))))
+                    elif k < 0.95:
+                        do(('wsframe', ('pk', pkts(1)[0])))
+                    elif k < 0.98:
+                        do(('wsframe', ('garbage',)))
+                    else:
+                        do(('wsclose',))
+                else:
+                    k = rng.random()
+                    do(('reply', 'GET', ('ok', pkts(rng.choice([1, 1, 2, 3, 16]))) if k < 0.9 else ('status', 400) if k < 0.94 else ('garbage', rng.randrange(3)) if k < 0.97 else ('fail',)))
+            elif x < 0.80:
+                do(('adv', rng.choice([1, 1, 4, 8, I - 1, I, T, I + T - 1, I + T, I + T + 1, max(I, T) + 39, max(I, T) + 40, max(I, T) + 41, REQ_TIMEOUT, REQ_TIMEOUT + 1])))
+            elif x < 0.86:
+                do(('call', 'disconnect'))
+            elif x < 0.9:
+                do(('call', 'wait'))
+            elif x < 0.93:
+                do(('call', 'connect', ['polling']))
+            elif d.pending_ws:
+                do(('wsanswer', rng.random() < 0.5))
+            else:
+                do(('reply', 'POST' if posts else 'GET', ('ok', [])))
+    return list(r.log)
